@@ -61,6 +61,20 @@ func (e *CEnv) EvalBool(x Expr) (t *T, err error) {
 	return cv.T, nil
 }
 
+// Eval evaluates an expression of any sort.
+func (e *CEnv) Eval(x Expr) (cv *CV, err error) {
+	defer func() {
+		if r := recover(); r != nil {
+			if ce, ok := r.(cerr); ok {
+				err = ce.err
+				return
+			}
+			panic(r)
+		}
+	}()
+	return e.eval(x), nil
+}
+
 type cerr struct{ err error }
 
 func (e *CEnv) fail(f string, a ...any) { panic(cerr{fmt.Errorf(f, a...)}) }
